@@ -1,0 +1,18 @@
+//go:build !verif
+
+package process
+
+// Verification hooks (build tag "verif"). With the tag off these are empty and inlined away.
+
+func verifSpawn(child *Process)                                         {}
+func verifGate(p *Process, re *RuntimeEnvironment)                      {}
+func verifSend(p *Process, ch chan Message, m Message)                  {}
+func verifRecv(p *Process, ch chan Message, m Message)                  {}
+func verifCtlSend(p *Process, ch chan ControlMessage, m ControlMessage) {}
+func verifCtlRecv(p *Process, ch chan ControlMessage, m ControlMessage) {}
+func verifChan(ident string, ch chan Message, ctl chan ControlMessage)  {}
+func verifRule(p *Process, r Rule)                                      {}
+func verifPrint(p *Process, label string)                               {}
+func verifEnd(p *Process, how string)                                   {}
+func verifQuiesce(re *RuntimeEnvironment)                               {}
+func verifTc(phase string)                                              {}
